@@ -196,3 +196,18 @@ Proof.
   intro H. unfold spec_backoff, backoff, max_attempts, max_backoff.
   destruct (n >? 10); [reflexivity|]. rewrite doubling_pow, Z2Nat.id by lia. reflexivity.
 Qed.
+
+(** * multi-segment SendWrite with the ticker advance (repaired code) *)
+Lemma send_ms_loop_spec : forall todo ticks rest posted,
+  send_ms_loop todo ticks rest posted = (rev posted ++ todo, concat rest).
+Proof.
+  induction todo as [|b r IH]; intros ticks rest posted.
+  - cbn. rewrite app_nil_r. reflexivity.
+  - cbn [send_ms_loop].
+    assert (E : send_ms_loop r (tl ticks) rest (b :: posted) = (rev posted ++ b :: r, concat rest)).
+    { rewrite IH. cbn [rev]. rewrite <- app_assoc. reflexivity. }
+    destruct r as [|b' r'].
+    + destruct rest as [|s rest']; [exact E|].
+      destruct (hd false ticks); [cbn [rev]; reflexivity | exact E].
+    + exact E.
+Qed.
